@@ -254,6 +254,12 @@ func WindowFrameSet(partition Partition, expr parser.AnalyticClause) []WindowFra
 	var frameIndex = func(current int, length int, framePosition parser.WindowFramePosition) int {
 		var idx int
 
+		// An offset beyond the partition selects the same rows as an offset of the partition's length.
+		offset := framePosition.Offset
+		if length < offset {
+			offset = length
+		}
+
 		switch framePosition.Direction.Token {
 		case parser.CURRENT:
 			idx = current
@@ -261,16 +267,37 @@ func WindowFrameSet(partition Partition, expr parser.AnalyticClause) []WindowFra
 			if !framePosition.Unbounded.IsEmpty() {
 				idx = 0
 			} else {
-				idx = current - framePosition.Offset
+				idx = current - offset
 			}
 		case parser.FOLLOWING:
 			if !framePosition.Unbounded.IsEmpty() {
 				idx = length - 1
 			} else {
-				idx = current + framePosition.Offset
+				idx = current + offset
 			}
 		}
 
+		return idx
+	}
+
+	// Frames are limited to the rows of the partition. An empty frame remains empty (High < Low).
+	var frameLowIndex = func(current int, length int, framePosition parser.WindowFramePosition) int {
+		idx := frameIndex(current, length, framePosition)
+		if idx < 0 {
+			idx = 0
+		} else if length < idx {
+			idx = length
+		}
+		return idx
+	}
+
+	var frameHighIndex = func(current int, length int, framePosition parser.WindowFramePosition) int {
+		idx := frameIndex(current, length, framePosition)
+		if idx < -1 {
+			idx = -1
+		} else if length <= idx {
+			idx = length - 1
+		}
 		return idx
 	}
 
@@ -298,7 +325,7 @@ func WindowFrameSet(partition Partition, expr parser.AnalyticClause) []WindowFra
 	if windowClause.FrameHigh == nil {
 		for current := 0; current < length; current++ {
 			frameSet = append(frameSet, WindowFrame{
-				Low:     frameIndex(current, length, frameLow),
+				Low:     frameLowIndex(current, length, frameLow),
 				High:    current,
 				Records: []int{partition[current]},
 			})
@@ -311,8 +338,8 @@ func WindowFrameSet(partition Partition, expr parser.AnalyticClause) []WindowFra
 
 		for current := 0; current < length; current++ {
 			frameSet = append(frameSet, WindowFrame{
-				Low:     frameIndex(current, length, frameLow),
-				High:    frameIndex(current, length, frameHigh),
+				Low:     frameLowIndex(current, length, frameLow),
+				High:    frameHighIndex(current, length, frameHigh),
 				Records: []int{partition[current]},
 			})
 		}
